@@ -296,7 +296,15 @@ func (s *StaticFileServer) ServeHTTP(w http.ResponseWriter, r *http.Request) {
 	if fileInfo.IsDir() {
 		indexPath := filepath.Join(realPath, s.indexFile)
 		if idxInfo, idxErr := os.Stat(indexPath); idxErr == nil && !idxInfo.IsDir() {
-			realPath = indexPath
+			// The index file may itself be a symlink: resolve it and apply
+			// the same containment check as for the requested path, or an
+			// index.html linking outside the root is served.
+			realIndex, evalErr := filepath.EvalSymlinks(indexPath)
+			if evalErr != nil || !isSubPath(s.absRoot, realIndex) {
+				http.Error(w, "Forbidden", http.StatusForbidden)
+				return
+			}
+			realPath = realIndex
 		} else if s.allowList {
 			s.serveDirectoryListing(w, urlPath, realPath)
 			return
